@@ -19,6 +19,7 @@ BUILT = {
  "C02": ("exploration", "Generated FD networks with bursts of up to 14 simultaneous sessions per stack (one or both directions, staggered waves) judged by a reference delivery model and a reference capacity model (first 8 RTS/CTS + 4 BAM accepted, further calls refused without a frame).", "5/C02"),
  "C03": ("exploration", "Differential testing against an independent implementation of the SAE frame layouts (reference peer + strict decoder) in both roles, both layers, RTS/CTS and BAM, with the peer's legal choices generated; a symmetric encoder+decoder mistake passes stack-vs-stack tests but fails here.", "5/C03"),
  "C04": ("exploration", "Generated claim configurations (adversarial NAME sets in every order, AAC mix, address layouts, claim instants around the 250 ms veto window, latencies incl. re-entrant) judged by a validity predicate over final states and the bus trace: settled, unique, lowest NAME keeps a contested address, losers cannot-claim or move.", "5/C04"),
+ "C05": ("exploration", "Generated stack configurations (CAs in every claim state, ECU-level listeners) with an exhaustive inner sweep over all 256 destination addresses (battery of single and transport frames to unowned ones, single frame + complete transfer to owned ones), a foreign bystander session, broadcasts, and all 8 frame-flag combinations; reference routing table with no-TX / no-state checks.", "5/C05"),
  "C06": ("fault_enumeration", "Every single frame loss and every silence point of either peer, for 110 transfer shapes on both data link layers, enumerated completely per shape (k over all bus frames), with recovery follow-up; payload/latency draws by Hypothesis.", "5/C06"),
  "C07": ("exploration", "Grammar-based fuzzing: protocol-aware frame sequences (all control bytes, boundary fields, spoofed sources, gaps up to beyond every timeout) injected while own transfers run; liveness via thread state and a deterministic busy-spin watchdog, then timer, release and follow-up-transfer oracles.", "5/C07"),
  "C08": ("exploration", "Every traced source line of either job thread as a pre-emption point (3 durations) for 8 transfer shapes, differential against the un-pre-empted run; double pre-emptions sampled. Line-granular, not bytecode-granular.", "5/C08"),
@@ -26,6 +27,8 @@ BUILT = {
  "C10": ("exploration", "Model-based testing of transfer histories with injected fates and inbound sessions on arbitrary session numbers against a reference capacity model, then a full-concurrency probe that must be accepted and delivered and one more call that must be refused without a frame.", "5/C10"),
  "C11": ("exploration", "Generated send_pgn sequences (packing boundaries, time limits, FEFF/FBFF, app/timer context) with an independent multi-PG reference unpacker over every emitted frame, delivery multiset per listener, and a deadline monitor.", "5/C11"),
  "C12": ("exploration", "Generated operation histories executed on the real ECU job thread under a virtual-time kernel and compared with a reference timer model: call windows per registration, no drift, no call after removal, no missing call; includes exact deadline/clock coincidences.", "5/C12"),
+ "C13": ("exploration", "Generated claim histories (start, waits around the veto window, contending claims) interleaved with send attempts through every entry point; oracle = known loss events + public CA state at each call, and a trace monitor over every emitted frame.", "5/C13"),
+ "C14": ("exploration", "Generated responder configurations in every claim state with an exhaustive sweep over all 256 destinations for boundary/random PGNs incl. the address-claim PGN; reference dispatch (callbacks exactly once on owning operational CAs, claim answers, request encoding).", "5/C14"),
  "C15": ("exploration", "PGN space (2^18) enumerated in both tiers, identifier space (2^29) enumerated in the thorough tier (stride sample + boundaries in quick), NAME space covered by exhaustive per-field sweeps, single bits, boundary tuples and Hypothesis draws, all against an independent reference codec.", "5/C15"),
 }
 
